@@ -16,6 +16,9 @@
 //!   payload <variant> <nf> (<field> <hex|none>)* <nt> (<type> <hex>)*  → <payload bytes> inc=1
 //!        real: the hop payload `build_onion_payloads` serializes (hook); op = what was ASKED (amounts, cltv, scid, secret,
 //!        metadata, keysend, invoice_request, blinded-hop data, custom TLVs); model = the encoder GENERATED from msgs.rs
+//!   instr forward|receive|blindedForward|blindedReceive <values…>  → <payload bytes>
+//!        real: the same hop payloads; op = the instruction VALUES in decimal (scid, amounts, expiries, secret, total, …);
+//!        model = HopInstr.encode (generated constructors + generated value encodings: HighZeroBytesDroppedBigSize, …)
 //!   customnew <n> (<type> <hex>)*  → ok … | err          real: public RecipientCustomTlvs::new
 //!   payloaddec <payload> <bp 0|1> <fwd|recv|na> <show invreq>  → kind=… amt=… custom=…
 //!        real: what that hop's node learns from peel_payment_onion (PendingHTLCInfo) on the real onion
@@ -294,6 +297,9 @@ fn payload_op(variant: &str, fields: &[(&str, Option<Vec<u8>>)], tlvs: &[(u64, V
 	op
 }
 
+/// `instr …` ops: the instruction VALUES (decimal), the model encodes them itself (HopInstr.encode)
+fn tlv_tail(tlvs: &[(u64, Vec<u8>)]) -> String { let mut o = format!(" {}", tlvs.len()); for (t, v) in tlvs { o.push_str(&format!(" {} {}", t, hex(v))); } o }
+
 fn show_tlvs(t: &[(u64, Vec<u8>)]) -> String { if t.is_empty() { "none".into() } else { t.iter().map(|(t, v)| format!("{}:{}", t, hex(v))).collect::<Vec<_>>().join(",") } }
 
 /// implementation oracle on the bytes of one hop payload: TLV types strictly increasing
@@ -433,6 +439,12 @@ fn blinded_section(ctx: &Ctx, rng: &mut Rng, rec: &mut Rec, thorough: bool, scal
 				(payload_op("onion.BlindedForward", &[("encrypted_tlvs", Some(bp.blinded_hops()[j - (u - 1)].encrypted_payload.clone())), ("intro_node_blinding_point", if j == u - 1 { Some(bp.blinding_point().serialize().to_vec()) } else { None })], &[]), "payload:blinded-forward")
 			} else { (final_op.clone(), if keysend.is_some() && invreq.is_some() { "payload:blinded-receive:keysend+invreq" } else if keysend.is_some() { "payload:blinded-receive:keysend" } else if invreq.is_some() { "payload:blinded-receive:invreq" } else { "payload:blinded-receive:plain" }) };
 			rec.case(&op, &format!("{} inc=1", hex(&payloads[j])), class, true);
+			// the same payload from the instruction VALUES: the model applies the value encodings itself
+			let iop = if j < u - 1 { format!("instr forward {} {} {}", path.hops[j + 1].short_channel_id, in_amt[j + 1], in_cltv[j + 1]) }
+				else if j < n - 1 { format!("instr blindedForward {} {}", hex(&bp.blinded_hops()[j - (u - 1)].encrypted_payload), if j == u - 1 { hex(&bp.blinding_point().serialize()) } else { "none".into() }) }
+				else { format!("instr blindedReceive {} {} {} {} {} {} {}{}", final_value, total, height + excess, hex(&bp.blinded_hops()[b].encrypted_payload), if b == 0 { hex(&bp.blinding_point().serialize()) } else { "none".into() },
+					opt_hex(keysend.as_ref().map(|p| &p.0[..])), opt_hex(invreq_bytes.as_deref()), tlv_tail(&custom_vec)) };
+			rec.case(&iop, &hex(&payloads[j]), if j < u - 1 { "instr:forward" } else if j < n - 1 { "instr:blinded-forward" } else { "instr:blinded-receive" }, true);
 		}
 		// which side of the fixed types the custom TLVs fall on (coverage)
 		if let Some(mx) = custom_vec.iter().map(|x| x.0).max() {
@@ -559,6 +571,13 @@ fn main() {
 						("sender_intended_htlc_amt_msat", Some(tu(last.fee_msat))), ("cltv_expiry_height", Some(tu((c.height + last.cltv_expiry_delta) as u64)))], c.rof.custom_tlvs()),
 						&format!("{} inc=1", hex(&payloads[i])), if c.keysend.is_some() { "payload:receive:keysend" } else { "payload:receive" }, true);
 				}
+				// the same payload from the instruction VALUES (the model applies the value encodings itself)
+				if i + 1 < n { rec.case(&format!("instr forward {} {} {}", c.path.hops[i + 1].short_channel_id, amt, cltv), &hex(&payloads[i]), "instr:forward", true); }
+				else {
+					let last = &c.path.hops[n - 1];
+					rec.case(&format!("instr receive {} {} {} {} {} {}{}", last.fee_msat, c.height + last.cltv_expiry_delta, opt_hex(c.rof.payment_secret.as_ref().map(|s| &s.0[..])), c.rof.total_mpp_amount_msat,
+						opt_hex(c.rof.payment_metadata.as_deref()), opt_hex(c.keysend.as_ref().map(|p| &p.0[..])), tlv_tail(c.rof.custom_tlvs())), &hex(&payloads[i]), "instr:receive", true);
+				}
 			}
 		}
 		let total: usize = payloads.iter().map(|p| p.len() + 32).sum();
@@ -590,6 +609,14 @@ fn main() {
 				Ok(Err(e)) => { rec.case(&op, &format!("err {}", e), "peel:err", true); rec.oracle_fail(format!("hop {} of {} rejected an untouched onion: {} (route {})", i, n, e, r)); ok = false; break; },
 				Ok(Ok(info)) => {
 					rec.case(&op, &show_peeled(&info), if i + 1 == n { "peel:final" } else { "peel:forward" }, true);
+					// what this hop READS from its payload, as values (model: readInstr = framing + record loop + value decoders + kind decision)
+					if r % 2 == 0 {
+						let exp = match &info.routing {
+							PendingHTLCRouting::Forward { short_channel_id, .. } => format!("kind=forward amt={} cltv={} scid={}", info.outgoing_amt_msat, info.outgoing_cltv_value, short_channel_id),
+							_ => show_peeled(&info).replacen("final ", "kind=receive ", 1),
+						};
+						rec.case(&format!("payloaddec {} 0 na 0", hex(&payloads[i])), &exp, if i + 1 == n { "payloaddec:receive" } else { "payloaddec:forward" }, true);
+					}
 					// impl oracle (no model): exactly the instructions that went in, constant size, finality only at the end
 					if info.incoming_shared_secret != ss[i] { rec.oracle_fail(format!("hop {} shared secret differs from construct_onion_keys", i)); }
 					let exp_amt: u64 = c.path.hops[i + 1..].iter().map(|h| h.fee_msat).sum();
@@ -788,7 +815,7 @@ fn main() {
 			}
 		}
 	}
-	rec.notes.insert("rule".into(), format!("PRNG routes of 1..N hops over {} node keys (N = longest suffix that fits {} bytes for the drawn payload sizes, also N+1), amounts in 6 magnitude classes, recipient fields (secret/metadata/custom TLVs/keysend) of varying size; per route: build (byte-exact), every hop peels, sampled single-bit corruptions, failures at random hops relayed back; plus the boundary section: failure-data lengths 0/1/253..257 (pad-to-256 threshold) and the lengths making the update_fail_htlc LN_MAX_MSG_LEN-2..+2 bytes with attribution data / from a failing node without it (thresholds taken from the real codec), each relayed by 1..N hops on a 6-hop route (every failing position), a short route and one longer than MAX_HOPS, compared on packet length, attribution data kept per relay, real vs modelled wire length, SHA-256 of packet and attribution data, decoded (hop, code, data, hold times); plus hop payload encoders: every payload of half of the routes and of all blinded routes as `payload` ops (what was asked vs the real bytes), RecipientCustomTlvs::new on drawn custom TLV sets (types below / between / above 77_777 and 5482373484, odd and even, reserved / low / repeated ones), payments to blinded recipients (real BlindedPaymentPath::new / one_hop, 0..3 blinded forwarding nodes, keysend, invoice_request) peeled by every node with the decoded instructions compared (`payloaddec`); every op line distinct; max hops seen {}", MAX_NODES, L, max_hops_seen));
+	rec.notes.insert("rule".into(), format!("PRNG routes of 1..N hops over {} node keys (N = longest suffix that fits {} bytes for the drawn payload sizes, also N+1), amounts in 6 magnitude classes, recipient fields (secret/metadata/custom TLVs/keysend) of varying size; per route: build (byte-exact), every hop peels, sampled single-bit corruptions, failures at random hops relayed back; plus the boundary section: failure-data lengths 0/1/253..257 (pad-to-256 threshold) and the lengths making the update_fail_htlc LN_MAX_MSG_LEN-2..+2 bytes with attribution data / from a failing node without it (thresholds taken from the real codec), each relayed by 1..N hops on a 6-hop route (every failing position), a short route and one longer than MAX_HOPS, compared on packet length, attribution data kept per relay, real vs modelled wire length, SHA-256 of packet and attribution data, decoded (hop, code, data, hold times); plus hop payload encoders: every payload of half of the routes and of all blinded routes as `payload` ops (what was asked vs the real bytes) and as `instr` ops (the instruction VALUES in decimal; the model applies the generated value encodings), RecipientCustomTlvs::new on drawn custom TLV sets (types below / between / above 77_777 and 5482373484, odd and even, reserved / low / repeated ones), payments to blinded recipients (real BlindedPaymentPath::new / one_hop, 0..3 blinded forwarding nodes, keysend, invoice_request) peeled by every node with the decoded instructions compared (`payloaddec`); every op line distinct; max hops seen {}", MAX_NODES, L, max_hops_seen));
 	rec.notes.insert("trusted".into(), "ECDH / ephemeral key blinding stay on the Rust side (shared secrets are inputs to the model); the real serialized length of update_fail_htlc comes from the real codec (parse + re-encode round trip)".into());
 	rec.finish();
 }
